@@ -1,3 +1,4 @@
+import Hy.Model.Connect
 /-
   C16 — model of core/client/reconnect.go (reconnectableClientImpl).
 
@@ -10,7 +11,11 @@
   Atomic steps (labels) — one per lock region / environment action:
     start lazy a      NewReconnectableClient (eager: rc.reconnect() before anyone shares rc)
     callBegin g a     clientDo, first lock region: closed? ; client = nil → reconnect() ; unlock
-                      (`a` = what the environment answers IF a reconnect attempt is made)
+                      (`a` = what the environment answers IF a reconnect attempt is made: configFunc
+                      error, invalid config, or the exit through which connect() leaves — the attempt
+                      RUNS Hy.Connect.newClient, the straight-line model of NewClient/connect over packet
+                      conn, transport and QUIC conn; `res` keeps that run per factory socket and the
+                      census bit `sock` is computed from it)
     callEnd g r       f(client) returned r ; on ClosedError the second lock region
     kill c            environment: the server connection of client c is lost
     close             rc.Close()
@@ -26,14 +31,25 @@
 -/
 namespace Hy.Reconnect
 
-/-- what the environment answers to one reconnect attempt -/
+/-- what the environment answers to one reconnect attempt: configFunc fails, verifyAndFill
+    rejects the configuration, or connect() leaves through one of its exits (Hy.Connect.Exit) -/
 inductive Att
   | cfgErr    -- configFunc returned an error
   | badCfg    -- Config.verifyAndFill rejected the configuration (before ConnFactory.New)
   | newErr    -- ConnFactory.New returned an error
-  | connErr   -- handshake / authentication failed after the socket was obtained
+  | dialErr   -- tr.DialEarly failed (handshake error / timeout): no quic.Conn was obtained
+  | rtErr     -- RoundTrip failed after DialEarly succeeded (connection lost during authentication)
+  | authErr   -- the server answered the auth request with a status other than 233
   | ok
 deriving DecidableEq, Repr
+
+/-- the exit of connect() an answer stands for (irrelevant for cfgErr / badCfg: connect is not reached) -/
+def Att.exit : Att → Connect.Exit
+  | .newErr => .factoryErr
+  | .dialErr => .dialErr
+  | .rtErr => .roundTripErr
+  | .authErr => .authErr
+  | _ => .ok
 
 /-- what `f(client)` (client.TCP / client.UDP) returned -/
 inductive FRes
@@ -85,6 +101,7 @@ structure St where
   closed  : Bool := false              -- rc.closed
   nextId  : Nat := 0                   -- sockets obtained from the factory so far
   sock    : Nat → Option Bool := fun _ => none
+  res     : Nat → Option Connect.R3 := fun _ => none   -- the three resources behind each factory socket
   dead    : Nat → Bool := fun _ => false
   pc      : Nat → Pc := fun _ => .idle
   log     : List Ev := []              -- newest first
@@ -95,7 +112,8 @@ def FRes.toRet : FRes → Ret
   | .ok => .ok | .closedErr => .closed | .recoverable => .recoverable | .other => .other
 
 /-- clientImpl.Close(): conn.CloseWithError, tr.Close, pktConn.Close -/
-def closeSock (s : St) (c : Nat) : St := { s with sock := upd s.sock c (some false) }
+def closeSock (s : St) (c : Nat) : St :=
+  { s with sock := upd s.sock c (some false), res := upd s.res c ((s.res c).map Connect.close) }
 
 /-- `if rc.client != nil { _ = rc.client.Close() }` -/
 def closeOld (s : St) : St :=
@@ -103,23 +121,29 @@ def closeOld (s : St) : St :=
   | some c => closeSock s c
   | none => s
 
-/-- configFunc, then NewClient: verifyAndFill, ConnFactory.New, connect — a failed connect closes
-    its own socket — and on success count++ and connectedFunc(count).
-    `rc.client, info, err = NewClient(config)` assigns nil on failure. Returns the error (none = success). -/
+def CRet.toRet : Connect.CRet → Ret
+  | .newErr => .newErr | .connectErr => .connErr | .authErr => .connErr | .cfgErr => .badCfg | .ok => .ok
+
+/-- configFunc, then NewClient (Hy.Connect.newClient: verifyAndFill, ConnFactory.New, connect — every
+    failing exit of connect closes what it acquired), and on success count++ and connectedFunc(count).
+    `rc.client, info, err = NewClient(config)` assigns nil on failure. A factory socket enters the
+    census when ConnFactory.New returned one (`r.pkt ≠ none`); whether it is still open afterwards
+    is COMPUTED from connect's run (`Connect.held r`), not assumed. Returns the error (none = success). -/
 def attempt (s : St) (a : Att) : St × Option Ret :=
   let s := { s with log := .cfg :: s.log }
   match a with
   | .cfgErr => (s, some .cfgErr)
-  | .badCfg => ({ s with client := none }, some .badCfg)
-  | .newErr => ({ s with client := none }, some .newErr)
-  | .connErr =>
-    let c := s.nextId
-    ({ s with client := none, nextId := c + 1, sock := upd s.sock c (some false),
-              log := .new c :: s.log }, some .connErr)
-  | .ok =>
-    let c := s.nextId
-    ({ s with client := some c, nextId := c + 1, sock := upd s.sock c (some true),
-              count := s.count + 1, log := .connected (s.count + 1) :: .new c :: s.log }, none)
+  | _ =>
+    let (r, cr, returned) := Connect.newClient (a != .badCfg) a.exit
+    match r.pkt with
+    | none => ({ s with client := none }, some (CRet.toRet cr))
+    | some _ =>
+      let c := s.nextId
+      let s := { s with nextId := c + 1, sock := upd s.sock c (some (Connect.held r)),
+                        res := upd s.res c (some r), log := .new c :: s.log }
+      if returned then
+        ({ s with client := some c, count := s.count + 1, log := .connected (s.count + 1) :: s.log }, none)
+      else ({ s with client := none }, some (CRet.toRet cr))
 
 /-- rc.reconnect() -/
 def reconnect (s : St) (a : Att) : St × Option Ret := attempt (closeOld s) a
@@ -214,5 +238,12 @@ def settled (s : St) (sat : Option Nat) (c : Nat) (k : Kind) : FRes :=
     | .udp => .ok
     | .tcp => if sat = some c then .recoverable else .ok
     | .tcpRefused => if sat = some c then .recoverable else .other
+
+/-! ### the configuration function (app/cmd/client.go `(*clientConfig).Config`)
+
+In the model a reconnect attempt starts with ONE fresh evaluation of configFunc (`Ev.cfg`). What
+"fresh" means for the application's function: the k-th evaluation sees the k-th answer of the
+resolver — nothing resolved earlier is kept. -/
+def configEvals {α} (answers : List α) : List α := answers.map id
 
 end Hy.Reconnect
